@@ -167,6 +167,18 @@ Proof.
   split; assumption.
 Qed.
 
+(* the executable checks the harness runs on the implementation's dumped hierarchy establish the
+   corresponding hypotheses: sweep_wfb (printed as WF by the model driver) gives sweep_wf, and a
+   coarsest solve verified through the row loop (smv A w = b) is a solution *)
+Theorem C10_harness_checks_sound (A : smat) (w b : vec) :
+  (sweep_wfb F A = true -> sweep_wf A) /\
+  ((forall i p, In p (nth i A []) -> fst p < length A) -> smv F zero add mul A w = b -> solves A w b).
+Proof.
+  split.
+  - apply sweep_wfb_sound.
+  - apply (smv_solves F zero one add mul sub opp div inv Fth).
+Qed.
+
 End C10.
 
 
@@ -272,4 +284,5 @@ Print Assumptions C10_coarse_correction_nonexpansive.
 Print Assumptions C10_coarse_correction_exact.
 Print Assumptions C10_vcycle_nonexpansive.
 Print Assumptions C10_iterates_monotone.
+Print Assumptions C10_harness_checks_sound.
 Print Assumptions C10_vcycle_nonexpansive_Qc.
